@@ -9,8 +9,37 @@ import signal
 import time
 
 BEHAVIOURS = ['equal', 'different', 'player_raises', 'extractor_raises', 'comparator_raises', 'bare_status',
-              'exit', 'hang', 'late']
-PROCESS_FAULTS = ('exit', 'hang', 'late')
+              'exit', 'hang', 'late', 'hang_sigterm_ignored', 'dies_after_giveup']
+# hang_sigterm_ignored: the replayed code has installed a SIGTERM handler (as services do) and then hangs
+# dies_after_giveup:    the worker hangs past the timeout and dies by itself right after the parent decided "timed out"
+#                       (window held open by a harness logging handler on the Equalizer's own warning)
+PROCESS_FAULTS = ('exit', 'hang', 'late', 'hang_sigterm_ignored', 'dies_after_giveup')
+
+
+class _Flag(object):
+    """Cross-process flag in shared memory, polled; no locks, so killed waiters cannot block anybody."""
+
+    def __init__(self):
+        self._v = mp.RawValue('b', 0)
+
+    def set(self):
+        self._v.value = 1
+
+    def clear(self):
+        self._v.value = 0
+
+    def is_set(self):
+        return bool(self._v.value)
+
+    def wait(self, timeout):
+        deadline = time.time() + timeout
+        while not self._v.value and time.time() < deadline:
+            time.sleep(0.005)
+        return bool(self._v.value)
+
+
+class ScenarioTimeout(BaseException):
+    pass
 
 
 class FakeRecording(object):
@@ -68,7 +97,8 @@ def run_scenario(scenario):
     script = dict(scenario['script'])
     rd, wr = os.pipe()
     os.set_inheritable(wr, True)
-    gave_up, answered = mp.Event(), mp.Event()
+    # lock-free shared flags (an mp.Event deadlocks its setter when a waiter was killed while waiting)
+    gave_up, answered = _Flag(), _Flag()
     cur = {'id': None, 'yielded': 0}
     me = os.getpid()
     before_children = set(p for p, _ in children_of(me))
@@ -91,6 +121,14 @@ def run_scenario(scenario):
         elif b == 'hang':
             if os.getpid() != me:
                 time.sleep(1000)
+        elif b == 'hang_sigterm_ignored':
+            if os.getpid() != me:
+                signal.signal(signal.SIGTERM, signal.SIG_IGN)
+                time.sleep(1000)
+        elif b == 'dies_after_giveup':
+            if os.getpid() != me:
+                gave_up.wait(30)
+                os._exit(4)
         elif b == 'exit':
             if os.getpid() != me:
                 os._exit(3)
@@ -131,6 +169,29 @@ def run_scenario(scenario):
             gave_up.clear()
             answered.clear()
 
+    import logging
+
+    class GiveUpWindow(logging.Handler):
+        """Holds the parent inside its timeout handling (it logs a warning first) until the scripted worker died."""
+
+        def emit(self, record):
+            try:
+                msg = record.getMessage()
+            except Exception:  # pylint: disable=broad-except
+                return
+            if 'timed out' in msg and script.get(cur['id']) == 'dies_after_giveup' and os.getpid() == me:
+                gave_up.set()
+                deadline = time.time() + 5
+                while time.time() < deadline and [p for p, _ in children_of(me) if p not in before_children]:
+                    time.sleep(0.02)
+                gave_up.clear()
+
+    eq_logger = logging.getLogger('playback.studio.equalizer')
+    window = GiveUpWindow()
+    window.setLevel(logging.WARNING)
+    eq_logger.addHandler(window)
+    old_disable = logging.root.manager.disable
+    logging.disable(logging.INFO)      # warnings reach the handler, everything below stays off
     cfg = CompareExecutionConfig(keep_results_in_comparison=scenario.get('keep', False),
                                  compare_in_dedicated_process=scenario['dedicated'],
                                  compare_process_recycle_rate=scenario.get('recycle', 3),
@@ -138,6 +199,15 @@ def run_scenario(scenario):
     out = {'comparisons': [], 'times': [], 'error': None}
     os.kill = slow_kill
     t0 = time.time()
+    cap = int(scenario.get('hard_cap_s', 120))
+
+    def on_alarm(signum, frame):
+        import traceback
+        out['hang_stack'] = ''.join(traceback.format_stack(frame)[-8:])
+        raise ScenarioTimeout()
+
+    old_alarm = signal.signal(signal.SIGALRM, on_alarm)
+    signal.alarm(cap)
     try:
         eq = Equalizer(id_iter(), player, extractor, comparator, compare_execution_config=cfg)
         consume = scenario.get('consume', 'full')
@@ -171,10 +241,17 @@ def run_scenario(scenario):
             gen = eq.run_comparison()    # created, never started
             del gen
         del eq
+    except ScenarioTimeout:
+        out['error'] = 'HARD-CAP: the run did not finish within %d s; parent was at:\n%s' % (
+            cap, out.get('hang_stack', '?'))
     except Exception as e:  # pylint: disable=broad-except
         out['error'] = '%s: %s' % (type(e).__name__, e)
     finally:
+        signal.alarm(0)
+        signal.signal(signal.SIGALRM, old_alarm)
         os.kill = real_kill
+        eq_logger.removeHandler(window)
+        logging.disable(old_disable)
     out['wall'] = round(time.time() - t0, 3)
     out['ids_pulled'] = cur['yielded']
     # children left behind?
